@@ -17,12 +17,15 @@ LEVEL = "exploration"
 NEW_VALUES = [None, True, 7, 2.25, "zz", "",
               # floats whose shortest spelling has no fraction digit, many
               # digits, or an exponent
-              10.0, 1.0, -300.0, 1e20, 0.1 + 0.2, 1.5e-7]
+              10.0, 1.0, -300.0, 1e20, 0.1 + 0.2, 1.5e-7,
+              # text that is literal syntax for something else in Python
+              "None", "{}", "0x1F", "(1, 2)"]
 RULE = ("E1: every document with <= 3 nodes (4 by stride; C01 alphabet, so "
         "repeated equal scalars, values spelled like keys and sets occur) x "
-        "every scalar leaf addressed by its coordinate path x 12 new values "
+        "every scalar leaf addressed by its coordinate path x 16 new values "
         "(null, true, 7, 2.25, 'zz', '') and 6 floats (10.0, 1.0, -300.0, 1e20, "
-        "0.30000000000000004, 1.5e-07), the same with the keys moved onto "
+        "0.30000000000000004, 1.5e-07) and 4 literal look-alike texts ('None', "
+        "'{}', '0x1F', '(1, 2)'), the same with the keys moved onto "
         "-1 / 0 / 12 / '-1' / 'b c', sequence elements also addressed as "
         "(parent)[i] through a Collector, plus C01-vocabulary paths matching "
         "only scalars; an enumerated family of anchored documents (scalar "
